@@ -40,6 +40,9 @@ type g2lUnit struct {
 	absSigs   map[string]string // Lean parameter name -> Lean type ("node" -> "H → H → H")
 	absVars   map[string]string // Go package variable -> Lean parameter name ("emptyHash" -> "empty")
 	pkgVars   map[string]string // Go package variable -> Lean constant (regenerated table in Generated/Facts.lean)
+	sumTypes  map[string][]string // interface -> the struct types that implement it: emitted as an inductive sum
+	embedGet  map[string]string   // method name -> embedded field it returns ("Comment" -> "Comments")
+	printfTo  map[string]string   // "printer.printf" -> the bytes.Buffer field the method formats into
 	ignoreCalls map[string]bool // method names whose calls (as statements) are dropped: "Close"
 	errFields map[string]bool   // error struct types whose (string / integer) fields are kept in the error text
 	errCarry  map[string]bool   // error struct types whose single field is returned in the (otherwise nil) first result slot
@@ -106,7 +109,7 @@ func g2lLoad(dir string) *g2lPkg {
 			}
 		}
 	}
-	p.info = &types.Info{Types: map[ast.Expr]types.TypeAndValue{}, Defs: map[*ast.Ident]types.Object{}, Uses: map[*ast.Ident]types.Object{}, Selections: map[*ast.SelectorExpr]*types.Selection{}}
+	p.info = &types.Info{Types: map[ast.Expr]types.TypeAndValue{}, Defs: map[*ast.Ident]types.Object{}, Uses: map[*ast.Ident]types.Object{}, Selections: map[*ast.SelectorExpr]*types.Selection{}, Implicits: map[ast.Node]types.Object{}}
 	cwd, _ := os.Getwd()
 	os.Chdir(*repo)
 	conf := types.Config{Importer: importer.ForCompiler(fs, "source", nil), Error: func(error) {}}
@@ -308,6 +311,9 @@ func (f *g2lFn) leanType(t types.Type, at ast.Node) string {
 		if _, ok := f.u.ifaceStructs[name]; ok {
 			return name
 		}
+		if _, ok := f.u.sumTypes[name]; ok {
+			return name
+		}
 		if _, ok := n.Underlying().(*types.Struct); ok {
 			return f.structType(name)
 		}
@@ -507,6 +513,23 @@ func (f *g2lFn) exprAs(b *binds, e ast.Expr, t types.Type) string {
 	if id, ok := e.(*ast.Ident); ok && id.Name == "nil" && t != nil {
 		return f.zero(t, e)
 	}
+	if t != nil {
+		if n, ok := t.(*types.Named); ok {
+			if variants, ok := f.u.sumTypes[n.Obj().Name()]; ok {
+				at := f.typeOf(e)
+				if pt, ok := at.(*types.Pointer); ok {
+					at = pt.Elem()
+				}
+				if an, ok := at.(*types.Named); ok {
+					for _, v := range variants {
+						if v == an.Obj().Name() {
+							return "(" + n.Obj().Name() + "." + v + " " + f.expr(b, e) + ")"
+						}
+					}
+				}
+			}
+		}
+	}
 	return f.expr(b, e)
 }
 
@@ -681,7 +704,22 @@ func (f *g2lFn) expr(b *binds, e ast.Expr) string {
 		return f.bindM(b, fmt.Sprintf("slice %s %s %s", x, lo, hi))
 	case *ast.SelectorExpr:
 		if sel, ok := f.p.info.Selections[e]; ok && sel.Kind() == types.FieldVal {
-			return "(" + f.expr(b, e.X) + ")." + leanIdent(e.Sel.Name)
+			// promoted fields of embedded structs: x.Before  ==>  x.Comments.Before
+			t := f.typeOf(e.X)
+			path := "(" + f.expr(b, e.X) + ")"
+			for _, ix := range sel.Index() {
+				if pt, ok := t.(*types.Pointer); ok {
+					t = pt.Elem()
+				}
+				st, ok := t.Underlying().(*types.Struct)
+				if !ok {
+					f.bad(e, "field path of %s", show(e))
+				}
+				fl := st.Field(ix)
+				path = "(" + path + "." + leanIdent(fl.Name()) + ")"
+				t = fl.Type()
+			}
+			return path
 		}
 		// a package function used as a value (strings.IndexFunc(name, unicode.IsSpace))
 		if id, ok := e.X.(*ast.Ident); ok {
